@@ -67,7 +67,7 @@ Definition step_p (gs : list graph) (es : list engine) (q : query) : tok :=
   | QMaps e h p =>
       let l := get_mappings_p (enth es e) (gnth gs h) (gnth gs p) in
       L [tnat (length l); tset tmapping (if determined (enth es e) (gnth gs h) (gnth gs p) then l else [])]
-  | QSub _ ch pa f ind names eattr => tbool (sub_iso vf2b f ind names eattr (gnth gs ch) (gnth gs pa))
+  | QSub _ ch pa f ind nc ec names eattr => tbool (sub_iso vf2b f ind nc ec names eattr (gnth gs ch) (gnth gs pa))
   | QGiso i j a b d => tbool (giso vf2b a b d (gnth gs i) (gnth gs j))
   | QGiso0 i j => tbool (giso0 vf2b (gnth gs i) (gnth gs j))
   | QFgi i j ud fa a b d => tbool (fgi vf2b ud fa a b d (gnth gs i) (gnth gs j))
@@ -107,7 +107,7 @@ Qed.
 Lemma step_pure gs es q c : cache_inv gs c ->
   exists c', step vf2b enum gs es q c = (step_p gs es q, c') /\ cache_inv gs c'.
 Proof.
-  intros Hc. destruct q as [e i j|e h p|e h p|gm ch pa f ind names eattr|i j a b d|i j|i j ud fa a b d]; simpl.
+  intros Hc. destruct q as [e i j|e h p|e h p|gm ch pa f ind nc ec names eattr|i j a b d|i j|i j ud fa a b d]; simpl.
   - destruct (isomorphic_pure gs (enth es e) i j c Hc) as (c' & E & H'). rewrite E. exists c'. auto.
   - destruct (get_mappings_pure gs (enth es e) h p c Hc) as (c' & E & H'). rewrite E. exists c'. auto.
   - destruct (pre_check_pure gs (enth es e) h p c Hc) as (c' & E & H'). rewrite E. exists c'. auto.
